@@ -1,3 +1,397 @@
 package main
 
-var properties = []*Property{}
+import (
+	"encoding/json"
+	"fmt"
+	"os"
+	"path/filepath"
+	"sort"
+	"strings"
+)
+
+func use(rule, what string, scope func(*Obl) bool) RuleUse {
+	return RuleUse{Rule: rule, Scope: scope, What: what}
+}
+
+var (
+	thriftGeneric = inPkgs("thrift/generic")
+	protoGeneric  = inPkgs("proto/generic")
+	thriftPkg     = inPkgs("thrift")
+	protoBinary   = inPkgs("proto/binary", "proto/protowire")
+)
+
+func anyOf(fs ...func(*Obl) bool) func(*Obl) bool {
+	return func(o *Obl) bool {
+		for _, f := range fs {
+			if f(o) {
+				return true
+			}
+		}
+		return false
+	}
+}
+
+func funcHas(subs ...string) func(*Obl) bool {
+	return func(o *Obl) bool {
+		for _, s := range subs {
+			if strings.Contains(o.Func, s) {
+				return true
+			}
+		}
+		return false
+	}
+}
+
+func notFunc(f func(*Obl) bool) func(*Obl) bool { return func(o *Obl) bool { return !f(o) } }
+
+// ruleKnown filters uses to rules that are registered (lets props reference rules that are
+// built later without breaking the build order).
+func uses(us ...RuleUse) []RuleUse {
+	var out []RuleUse
+	for _, u := range us {
+		if rules[u.Rule] != nil {
+			out = append(out, u)
+		}
+	}
+	return out
+}
+
+var properties []*Property
+
+func initProperties() {
+	mutators := funcHas("SetByPath", "SetMany", "UnsetByPath", "ReplaceByPath", "setNotFound", "deleteChild", "findDeleteChild", "replace", "updateByteLen")
+	properties = []*Property{
+		{ID: "C01", Title: "Thrift reads return exactly what the bytes encode",
+			Decides: "the clause `a path that does not fit the value's shape or the descriptor yields an error result, never a panic` and error propagation of the read walkers: descriptor lookups are nil-checked before use (NILLOOKUP), no fallible call's error is dropped or swallowed (DROPERR, ERRSWALLOW), size-guarded cursor functions get positive sizes (PANICARG), container counts are bounded (ALLOCBOUND), every search loop consumes (LOOPPROGRESS) and the unknown-field branches skip (UNKNOWNSKIP) — over package thrift/generic and the thrift skip/readers it uses.",
+			NotDec:  "that offsets, spans and values returned are the right ones (chained skip arithmetic is value-level); typed/untyped agreement; effect of each read option.",
+			Uses: uses(
+				use("NILLOOKUP", "lookup results checked", anyOf(thriftGeneric, thriftPkg)),
+				use("DROPERR", "errors propagate", notFunc(mutators)),
+				use("ERRSWALLOW", "errors propagate", thriftGeneric),
+				use("PANICARG", "no size panic", thriftPkg),
+				use("ALLOCBOUND", "counts bounded", anyOf(thriftGeneric, thriftPkg)),
+				use("LOOPPROGRESS", "search loops consume", anyOf(thriftGeneric, thriftPkg)),
+				use("UNKNOWNSKIP", "unknown fields skipped", anyOf(thriftGeneric, thriftPkg)),
+				use("RECDEPTH", "recursion budget", anyOf(thriftGeneric)),
+			)},
+		{ID: "C02", Title: "JSON->Thrift conversion encodes exactly the value the JSON denotes", QuickP: true,
+			Decides: "option plumbing into the native FSM (FLAGSYNC: every conv.Option that affects j2t reaches its own flag bit, flags recomputed after every options write), the native status is tested and handled (NATIVERET), and for the portable converter (config P): every JSON-kind case of doRecurse ends in a return (CASEEXIT), the portable code reads the same options the flag table maps (OPTAGREE), no error dropped (DROPERR), thrift type switch exhaustive (KINDEXH).",
+			NotDec:  "everything inside the native FSM (opaque machine code): number/escape handling, resumption after ERR_OOM_*, buffer-capacity independence; value equality of the output.",
+			Uses: uses(
+				use("FLAGSYNC", "options reach flags", nil),
+				use("NATIVERET", "native status handled", inPkgs("conv/j2t")),
+				use("CASEEXIT", "kind mismatch is an error", nil),
+				use("OPTAGREE", "portable reads mapped options", nil),
+				use("DROPERR", "errors propagate", inPkgs("conv/j2t")),
+				use("ERRSWALLOW", "errors propagate", inPkgs("conv/j2t")),
+				use("KINDEXH", "type switch exhaustive", inPkgs("conv/j2t")),
+				use("ARGSWAP", "arguments in order", inPkgs("conv/j2t")),
+			)},
+		{ID: "C03", Title: "Thrift->JSON conversion emits valid JSON denoting exactly the value",
+			Decides: "balanced `{}`/`[]` on every success path of the t2j walkers (JSONPAIR — a necessary condition of `never malformed JSON with a nil error`), member keys come from one FieldDescriptor accessor everywhere (KEYSRC), thrift type switches are exhaustive (KINDEXH), unknown fields are an error exactly when disallowed and are otherwise skipped (NEGPOLARITY, UNKNOWNSKIP), no error dropped (DROPERR), loops consume (LOOPPROGRESS).",
+			NotDec:  "comma placement, numeric and string exactness, non-finite doubles (value-level).",
+			Uses: uses(
+				use("JSONPAIR", "balanced JSON", inPkgs("conv/t2j")),
+				use("KEYSRC", "declared keys", nil),
+				use("KINDEXH", "type switches exhaustive", inPkgs("conv/t2j")),
+				use("NEGPOLARITY", "unknown = error iff disallowed", inPkgs("conv/t2j")),
+				use("UNKNOWNSKIP", "unknown skipped", inPkgs("conv/t2j")),
+				use("DROPERR", "errors propagate", inPkgs("conv/t2j")),
+				use("ERRSWALLOW", "errors propagate", inPkgs("conv/t2j")),
+				use("LOOPPROGRESS", "loops consume", inPkgs("conv/t2j")),
+				use("NILLOOKUP", "lookups checked", inPkgs("conv/t2j")),
+			)},
+		{ID: "C04", Title: "Thrift in-place edits change exactly the addressed element",
+			Decides: "every locator loop of the mutators has a not-found exit and no in-place size patch precedes a fallible step (NOTFOUNDEXIT), name->id translation checks the lookup (NILLOOKUP), in-place patching of the caller's bytes is confined to the mutators (INPUTRO), insertion errors propagate (DROPERR).",
+			NotDec:  "splice arithmetic, count/order after arbitrary histories, fork independence.",
+			Uses: uses(
+				use("NOTFOUNDEXIT", "absent element changes nothing", thriftGeneric),
+				use("NILLOOKUP", "name->id checked", funcHas("thrift/generic.Value).SetByPath", "thrift/generic.Value).UnsetByPath", "thrift/generic.GetDescByPath")),
+				use("INPUTRO", "patching confined", thriftGeneric),
+				use("DROPERR", "errors propagate", func(o *Obl) bool { return thriftGeneric(o) && mutators(o) }),
+			)},
+		{ID: "C05", Title: "Thrift DOM load/marshal is lossless; DOM edits marshal as edited",
+			Decides: "the by-id slot threshold is compared identically at load, lookup and store (THRESHAGREE), PathNode.marshal covers every thrift type and writes headers before elements (KINDEXH, HDRFIRST), child-slice growth is bounded by the input (ALLOCBOUND), Marshal copies out of the pooled buffer (POOLESCAPE).",
+			NotDec:  "losslessness itself, hash-slot reuse across loads, stale entries.",
+			Uses: uses(
+				use("THRESHAGREE", "slot choice agrees", nil),
+				use("KINDEXH", "marshal covers all types", funcHas("thrift/generic.PathNode")),
+				use("HDRFIRST", "header before elements", funcHas("thrift/generic.PathNode")),
+				use("ALLOCBOUND", "growth bounded", funcHas("thrift/generic.PathNode")),
+				use("POOLESCAPE", "copy-out before free", funcHas("thrift/generic.PathNode")),
+				use("DROPERR", "errors propagate", funcHas("thrift/generic.PathNode")),
+			)},
+		{ID: "C06", Title: "Decoders survive arbitrary bytes: error, not crash, hang or over-read", QuickP: true,
+			Decides: "for every function of both protocols, both generic packages and the four converters, in both build configurations: every cursor loop consumes input or leaves (LOOPPROGRESS), no input-derived count sizes an allocation unbounded (ALLOCBOUND), size-guarded functions never get a non-positive size (PANICARG), descriptor lookups on input-derived ids are nil-checked (NILLOOKUP), input-driven recursion carries a depth budget (RECDEPTH), no decoder error is dropped or swallowed (DROPERR, ERRSWALLOW).",
+			NotDec:  "out-of-bounds reads through unsafe (NewNode header peeks, DecodeString trusting a length — needs value ranges), panics inside sonic or the native blob, wall-clock bounds.",
+			Uses: uses(
+				use("LOOPPROGRESS", "never loops without consuming", nil),
+				use("ALLOCBOUND", "allocation bounded by input", nil),
+				use("PANICARG", "no explicit-size panic", nil),
+				use("NILLOOKUP", "no nil-descriptor panic", nil),
+				use("RECDEPTH", "bounded stack", nil),
+				use("DROPERR", "decoder errors stop the walk", nil),
+				use("ERRSWALLOW", "decoder errors stop the walk", nil),
+				use("UNKNOWNSKIP", "unknown fields skipped", nil),
+			)},
+		{ID: "C07", Title: "Protobuf reads return exactly what the reference decoder sees",
+			Decides: "unknown field numbers in the message cannot crash reads (NILLOOKUP over proto/generic), kind/wire-type/packedness tables match the protobuf spec (KINDTABLE — they drive every skip), errors propagate (DROPERR, ERRSWALLOW), search loops consume (LOOPPROGRESS), unknown fields are skipped (UNKNOWNSKIP).",
+			NotDec:  "positions/values, packed/unpacked boundaries, empty sub-messages.",
+			Uses: uses(
+				use("NILLOOKUP", "lookups checked", protoGeneric),
+				use("KINDTABLE", "wire tables = spec", nil),
+				use("DROPERR", "errors propagate", func(o *Obl) bool { return protoGeneric(o) && !mutators(o) }),
+				use("ERRSWALLOW", "errors propagate", protoGeneric),
+				use("LOOPPROGRESS", "loops consume", protoGeneric),
+				use("UNKNOWNSKIP", "unknown skipped", protoGeneric),
+				use("RWPAIR", "reader primitives per kind", nil),
+			)},
+		{ID: "C08", Title: "Protobuf->JSON conversion emits valid JSON denoting exactly the message",
+			Decides: "balanced JSON on every success path of p2j (JSONPAIR), every legal map-key kind is quoted (MAPKEYQUOTE), unsigned kinds are not routed through a signed formatter (SIGNCONV), the kind switch covers the 15 scalar kinds + MESSAGE (KINDEXH), list/map loops consume and stop on errors (LOOPPROGRESS, DROPERR), unknown = error iff disallowed (NEGPOLARITY).",
+			NotDec:  "float exactness, comma placement.",
+			Uses: uses(
+				use("JSONPAIR", "balanced JSON", inPkgs("conv/p2j")),
+				use("MAPKEYQUOTE", "map keys quoted", nil),
+				use("SIGNCONV", "unsigned exact", nil),
+				use("KINDEXH", "all kinds", inPkgs("conv/p2j")),
+				use("LOOPPROGRESS", "loops consume", inPkgs("conv/p2j")),
+				use("DROPERR", "errors propagate", inPkgs("conv/p2j")),
+				use("ERRSWALLOW", "errors propagate", inPkgs("conv/p2j")),
+				use("NEGPOLARITY", "unknown handling", inPkgs("conv/p2j")),
+				use("UNKNOWNSKIP", "unknown skipped", inPkgs("conv/p2j")),
+				use("NILLOOKUP", "lookups checked", inPkgs("conv/p2j")),
+			)},
+		{ID: "C09", Title: "JSON->Protobuf conversion encodes exactly the value the JSON denotes",
+			Decides: "the visitor's kind switches accept every kind the spec allows for a JSON number/string/bool and map key (KINDEXH), per-kind writer primitives match the spec (RWPAIR), tags use real wire types and map entries use field numbers 1/2 (TAGTYPE, MAPTAG), parse errors are not blanked (DROPERR), unknown = error iff disallowed (NEGPOLARITY).",
+			NotDec:  "speculative-length shifting at 127/128/16383 (value-level; pairing across sonic callbacks is dynamic), range checks.",
+			Uses: uses(
+				use("KINDEXH", "kinds accepted", inPkgs("conv/j2p")),
+				use("RWPAIR", "writer primitives per kind", nil),
+				use("TAGTYPE", "tag wire types", inPkgs("conv/j2p")),
+				use("MAPTAG", "map entry numbers", inPkgs("conv/j2p")),
+				use("DROPERR", "errors propagate", inPkgs("conv/j2p")),
+				use("ERRSWALLOW", "errors propagate", inPkgs("conv/j2p")),
+				use("NEGPOLARITY", "unknown handling", inPkgs("conv/j2p")),
+				use("NILLOOKUP", "lookups checked", inPkgs("conv/j2p")),
+			)},
+		{ID: "C10", Title: "Protobuf edits and DOM marshalling keep the message well-formed and exact",
+			Decides: "inserted tags carry a real wire type and map entries key=1/value=2 (TAGTYPE, MAPTAG), speculative lengths are finished on every path of PathNode.marshal (SPECLENPAIR), name->number translation is nil-checked (NILLOOKUP), insertion/tag errors propagate (DROPERR), the delete locator has a not-found exit (NOTFOUNDEXIT).",
+			NotDec:  "updateByteLen ancestor-length arithmetic.",
+			Uses: uses(
+				use("TAGTYPE", "tag wire types", protoGeneric),
+				use("MAPTAG", "map entry numbers", protoGeneric),
+				use("SPECLENPAIR", "lengths finished", protoGeneric),
+				use("NILLOOKUP", "lookups checked", func(o *Obl) bool { return protoGeneric(o) && mutators(o) }),
+				use("DROPERR", "errors propagate", func(o *Obl) bool { return protoGeneric(o) && mutators(o) }),
+				use("NOTFOUNDEXIT", "absent element changes nothing", protoGeneric),
+				use("INPUTRO", "patching confined", protoGeneric),
+			)},
+		{ID: "C11", Title: "Cutting (MarshalTo) yields exactly the projection onto the target schema",
+			Decides: "every success return of thrift marshalTo has consumed from the source and produced output (MUSTCONSUME: identical descriptors must copy, not drop), headers precede elements (HDRFIRST), proto marshalTo finishes its lengths and propagates nested errors (SPECLENPAIR, DROPERR), unknown fields are skipped/rejected per option (UNKNOWNSKIP, NEGPOLARITY), lookups checked (NILLOOKUP), recursion bounded (RECDEPTH), MarshalTo copies out of the pooled buffer (POOLESCAPE).",
+			NotDec:  "that the output is exactly the projection.",
+			Uses: uses(
+				use("MUSTCONSUME", "copy, never drop", nil),
+				use("HDRFIRST", "header first", funcHas("generic.marshalTo")),
+				use("SPECLENPAIR", "lengths finished", funcHas("generic.marshalTo")),
+				use("DROPERR", "errors propagate", funcHas("generic.marshalTo", "MarshalTo", "handleUnsets")),
+				use("UNKNOWNSKIP", "unknown skipped", funcHas("generic.marshalTo")),
+				use("NEGPOLARITY", "unknown handling", funcHas("generic.marshalTo")),
+				use("NILLOOKUP", "lookups checked", funcHas("generic.marshalTo")),
+				use("RECDEPTH", "recursion budget", funcHas("generic.marshalTo")),
+				use("POOLESCAPE", "copy-out", funcHas("MarshalTo")),
+				use("LOOPPROGRESS", "loops consume", funcHas("generic.marshalTo")),
+			)},
+		{ID: "C12", Title: "Shared descriptors/buffers are safe for concurrent use; results are not aliased",
+			Decides: "no function reachable (VTA call graph) from a read-side entry point writes descriptor state (DESCIMMUT), a package-level variable (GLOBALWRITE), the caller's input bytes (INPUTRO) or a converter receiver — hence concurrent read-side calls share only immutable data and sync.Pool objects; pooled buffers are never returned, stored in caller-visible memory or used after Put (POOLESCAPE).",
+			NotDec:  "result equality under interleavings, dirty pooled bitmaps (value-level), user-supplied http getters.",
+			Uses: uses(
+				use("DESCIMMUT", "descriptors immutable", nil),
+				use("GLOBALWRITE", "no global writes", nil),
+				use("INPUTRO", "input read-only", nil),
+				use("POOLESCAPE", "pooled buffers do not escape", nil),
+			)},
+		{ID: "C13", Title: "JSON<->binary conversions are mutually inverse on their domains",
+			Decides: "every kind one direction emits as a JSON number/string/bool is accepted from that JSON kind by the inverse direction (KINDINV), both directions use the same key accessor (KEYSRC).",
+			NotDec:  "everything numeric (precision, sign of zero), string quoting, base64.",
+			Uses: uses(
+				use("KINDINV", "emitted kinds accepted", nil),
+				use("KEYSRC", "same keys both ways", nil),
+			)},
+		{ID: "C14", Title: "Thrift descriptors mirror the IDL and lookups are exact",
+			Decides: "every name map that is filled is built (BUILDPAIR: without Build every key lookup returns nil), trie/hash Set and Get derive slots through the same helper (SEQAGREE), descriptors are not written after parsing (DESCIMMUT).",
+			NotDec:  "fidelity to the IDL, default values, requiredness under options, the native trie_get/hm_get twins, adversarial keys.",
+			Uses: uses(
+				use("BUILDPAIR", "maps built", inPkgs("thrift", "internal/util")),
+				use("SEQAGREE", "set/get agree", nil),
+				use("DESCIMMUT", "descriptors immutable", nil),
+			)},
+		{ID: "C15", Title: "Protobuf descriptors mirror the schema",
+			Decides: "the compiling cache is keyed injectively (CACHEKEY: message types sharing a simple name get distinct descriptors), kind/wire/packedness tables match the spec (KINDTABLE), name maps are built (BUILDPAIR).",
+			NotDec:  "field-by-field fidelity, streaming flags.",
+			Uses: uses(
+				use("CACHEKEY", "descriptor identity", nil),
+				use("KINDTABLE", "tables = spec", nil),
+				use("BUILDPAIR", "maps built", inPkgs("proto", "internal/util")),
+			)},
+		{ID: "C16", Title: "Requiredness, defaults and unknown-field options behave as documented", QuickP: true,
+			Decides: "each write/disallow option reaches its own flag bit with the documented polarity (FLAGSYNC), options reach the matching parameter of HandleRequires/CheckRequires/EncodeText/ReadAnyWithDesc (ARGSWAP), an unknown member is an error exactly when disallowed and is otherwise skipped (NEGPOLARITY, UNKNOWNSKIP), unset fields are written under the same key as present ones (KEYSRC), the descriptor's requires bitmap is only copied, never written (DESCIMMUT).",
+			NotDec:  "the truth table itself under dirty bitmaps and ids > 64/256.",
+			Uses: uses(
+				use("FLAGSYNC", "option -> flag", nil),
+				use("ARGSWAP", "option -> parameter", nil),
+				use("NEGPOLARITY", "unknown = error iff disallowed", nil),
+				use("UNKNOWNSKIP", "unknown skipped / disallow honoured", nil),
+				use("KEYSRC", "same key for unset fields", nil),
+				use("DESCIMMUT", "requires bitmap copied", nil),
+			)},
+		{ID: "C17", Title: "HTTP mapping takes each annotated field from its declared source",
+			Decides: "each annotation key maps to the type whose Request/Response calls the getter/setter of its declared source (ANNOTABLE), the first listed source with a value wins (FIRSTWINS), HTTPConv really enables mapping before flags are computed (FLAGSYNC), fallback options reach the right parameters (ARGSWAP), mapping errors are not dropped (DROPERR).",
+			NotDec:  "precedence/fallback decision table, field-cache replay in the native converter.",
+			Uses: uses(
+				use("ANNOTABLE", "annotation -> source", nil),
+				use("FIRSTWINS", "first source wins", nil),
+				use("FLAGSYNC", "HTTPConv enables mapping", nil),
+				use("ARGSWAP", "options in order", inPkgs("conv/j2t", "conv/t2j", "thrift/annotation")),
+				use("DROPERR", "errors propagate", inPkgs("thrift/annotation", "conv/t2j", "conv/j2t", "http")),
+			)},
+		{ID: "C18", Title: "Native and portable implementations agree; text encoders are exact", QuickP: true,
+			Decides: "every native stub is bound in all three SIMD flavours with identical key sets and each flavour loads its own text (STUBTABLE), native and portable files are selected by exactly complementary build constraints (TAGPARTITION), the portable converter reads the options the native flags carry (OPTAGREE) and rejects kind mismatches on every path (CASEEXIT), native skip failure is an error like Go skip (NATIVERET).",
+			NotDec:  "agreement of outputs, text-encoder exactness (opaque blob).",
+			Uses: uses(
+				use("STUBTABLE", "flavour tables", nil),
+				use("TAGPARTITION", "one implementation per platform", nil),
+				use("OPTAGREE", "same options", nil),
+				use("CASEEXIT", "both reject mismatches", nil),
+				use("NATIVERET", "both fail", nil),
+			)},
+		{ID: "C19", Title: "Thrift protocol codec: write/read inverse, skip exact, envelope faithful",
+			Decides: "skip width = read width = write width per fixed-size type (WIDTHTABLE), container/field headers precede elements in the generic writers (HDRFIRST), structs are closed with STOP (STRUCTPAIR), casted values are the ones written (CASTUSED), precomputed header/footer issue the same writer sequence as WrapBinaryBody (SEQAGREE), type switches exhaustive (KINDEXH), counts bounded (ALLOCBOUND), no size panics (PANICARG).",
+			NotDec:  "value round-trips.",
+			Uses: uses(
+				use("WIDTHTABLE", "widths agree", nil),
+				use("HDRFIRST", "header first", thriftPkg),
+				use("STRUCTPAIR", "STOP written", thriftPkg),
+				use("CASTUSED", "cast value written", thriftPkg),
+				use("SEQAGREE", "header/footer = wrapped form", nil),
+				use("KINDEXH", "type switches", thriftPkg),
+				use("ALLOCBOUND", "counts bounded", thriftPkg),
+				use("PANICARG", "no size panic", thriftPkg),
+				use("DROPERR", "errors propagate", thriftPkg),
+				use("NEGPOLARITY", "unknown handling", thriftPkg),
+				use("UNKNOWNSKIP", "unknown skipped", thriftPkg),
+			)},
+		{ID: "C20", Title: "Protobuf wire codec agrees with the reference implementation",
+			Decides: "per kind, the descriptor-driven reader and writer use inverse wire primitives matching the spec incl. zig-zag (RWPAIR), unrolled varint stages follow the template (VARINTTEMPLATE), kind/wire tables = spec (KINDTABLE), option/flag arguments are passed in parameter order (ARGSWAP), map entries key=1/value=2 (MAPTAG), speculative lengths finished and writer errors propagated in WriteList/WriteMap/WriteMessageFields (SPECLENPAIR, DROPERR), no size panics (PANICARG).",
+			NotDec:  "byte-identity with the reference encoder.",
+			Uses: uses(
+				use("RWPAIR", "reader/writer symmetric", nil),
+				use("VARINTTEMPLATE", "varint stages", nil),
+				use("KINDTABLE", "tables = spec", nil),
+				use("ARGSWAP", "arguments in order", protoBinary),
+				use("MAPTAG", "map entry numbers", protoBinary),
+				use("TAGTYPE", "tag wire types", protoBinary),
+				use("SPECLENPAIR", "lengths finished", protoBinary),
+				use("DROPERR", "errors propagate", protoBinary),
+				use("ERRSWALLOW", "errors propagate", protoBinary),
+				use("PANICARG", "no size panic", protoBinary),
+				use("NEGPOLARITY", "unknown handling", protoBinary),
+				use("UNKNOWNSKIP", "unknown skipped", protoBinary),
+				use("LOOPPROGRESS", "loops consume", protoBinary),
+			)},
+	}
+}
+
+// writeManifest regenerates /verif/MANIFEST.json from the property table.
+func writeManifest() {
+	type level struct {
+		Category  string `json:"category"`
+		Text      string `json:"text"`
+		DesignRef string `json:"design_ref"`
+	}
+	type check struct {
+		PropertyID string `json:"property_id"`
+		QuickCmd   string `json:"quick_cmd"`
+		Thorough   string `json:"thorough_cmd"`
+		Evidence   string `json:"evidence_file"`
+		Replay     string `json:"replay_cmd_template"`
+		Engine     string `json:"engine"`
+		Level      level  `json:"level_claimed"`
+		LevelNote  string `json:"level_note"`
+		Technique  string `json:"technique"`
+	}
+	var checks []check
+	allRules := map[string][]string{}
+	for _, p := range properties {
+		if len(p.Uses) == 0 {
+			continue
+		}
+		var rs []string
+		seen := map[string]bool{}
+		for _, u := range p.Uses {
+			if !seen[u.Rule] {
+				seen[u.Rule] = true
+				rs = append(rs, u.Rule)
+				allRules[u.Rule] = append(allRules[u.Rule], p.ID)
+			}
+		}
+		checks = append(checks, check{
+			PropertyID: p.ID,
+			QuickCmd:   "./dgcheck.sh " + p.ID + " quick",
+			Thorough:   "./dgcheck.sh " + p.ID + " thorough",
+			Evidence:   "/verif/evidence/" + p.ID + ".json",
+			Replay:     "./dgcheck.sh " + p.ID + " quick   # re-analyses /repo; {path} names the violated obligation (file:line, rule, path through the CFG)",
+			Engine:     "dgcheck",
+			Level: level{Category: "other",
+				Text: "Static analysis (go/types + go/ssa + VTA call graph) of /repo's current source. Structural necessary conditions of the property are decided on every path of every function in scope; the behaviour itself is not. Decided: " + p.Decides + " Not decided: " + p.NotDec,
+				DesignRef: "DESIGN.md §3 (rules " + strings.Join(rs, ", ") + "), §4 " + p.ID},
+			LevelNote: "Trusted: go/packages, go/types, go/ssa, VTA call graph (x/tools v0.29.0); rule tables holding spec constants; exemptions.jsonl (one named construct each, with reason). Native machine code, sonic and the Go runtime are not analysed. Violations that reproduce as genuine defects are repaired by fix: commits or listed in known_findings.jsonl.",
+			Technique: "static analysis: " + strings.Join(rs, ", "),
+		})
+	}
+	type engine struct {
+		Name   string   `json:"name"`
+		Path   string   `json:"path"`
+		Serves []string `json:"serves_properties"`
+		Kind   string   `json:"kind_free_text"`
+	}
+	var served []string
+	for _, c := range checks {
+		served = append(served, c.PropertyID)
+	}
+	var na []map[string]string
+	for _, p := range properties {
+		if len(p.Uses) == 0 {
+			na = append(na, map[string]string{"property_id": p.ID, "reason": "no structural clause of this property is decided by a rule that is built yet"})
+		}
+	}
+	var rn []string
+	for r := range allRules {
+		rn = append(rn, r)
+	}
+	sort.Strings(rn)
+	m := map[string]interface{}{
+		"version":   1,
+		"setup_cmd": "cd /verif && ./setup.sh",
+		"hooks": map[string]interface{}{
+			"guard":            "verif",
+			"enable":           "none needed: the checks analyse source only and add positive-control fixtures through the go/packages overlay (no file is written under /repo); no hook commits exist",
+			"baseline_off_cmd": "/verif/tools/suite.sh",
+			"source_commits":   []string{},
+			"add_only":         true,
+		},
+		"engines": []engine{{Name: "dgcheck", Path: "/verif/cmd/dgcheck", Serves: served,
+			Kind: "custom static analyser over go/packages + go/types + go/ssa + callgraph/vta: path rules (MUSTPASS), dataflow summaries, call-graph reachability, cross-table comparison"}},
+		"checks":         checks,
+		"not_applicable": na,
+		"notes":          "All checks are static (nothing under /repo is executed). Exit 0 = every obligation discharged/exempt/known; exit 1 + VIOLATION line = an unlisted violated obligation; exit 2 = checker broken (load/type errors, unresolved anchor, instance floor missed, positive control not reported). Rules: " + strings.Join(rn, ", ") + ".",
+	}
+	if na == nil {
+		m["not_applicable"] = []map[string]string{}
+	}
+	b, _ := json.MarshalIndent(m, "", " ")
+	path := filepath.Join(verifDir(), "MANIFEST.json")
+	if err := os.WriteFile(path, append(b, '\n'), 0o644); err != nil {
+		broken("write manifest: %v", err)
+	}
+	fmt.Println("wrote", path, "checks:", len(checks))
+}
